@@ -92,8 +92,11 @@ def gen_cases(tier, seed):
             buf[o] = rng.choice([0, 1, 255, len(buf) - o - 1, len(buf) - o, len(buf) - o - 2, buf[o] + 1])
             buf[o] %= 256
         bufs.append(buf)
+    from . import frames as F
+    wide = F.wide(rng, tier == "quick")["iter"]
+    bufs += [list(b) for b in wide]
     cases = ["iter " + hx(b) for b in bufs]
-    return cases, {"skeleton_buffers": n_skel, "max_exhaustive_len": maxn, "random": nr, "total": len(cases),
+    return cases, {"skeleton_buffers": n_skel, "max_exhaustive_len": maxn, "random": nr, "over_65535_bytes": len(wide), "total": len(cases),
                    "sizes": {"0-2": sum(len(b) <= 2 for b in bufs), "3-16": sum(2 < len(b) <= 16 for b in bufs),
                              "17-255": sum(16 < len(b) <= 255 for b in bufs), "256+": sum(len(b) > 255 for b in bufs)}}
 
